@@ -7,6 +7,7 @@ package main
 import (
 	"errors"
 	"fmt"
+	"regexp"
 	"runtime"
 	"sort"
 	"strconv"
@@ -47,6 +48,7 @@ type errsArea struct {
 	vars     map[int]error
 	stacks   map[*uintptr]string // first cell of a recorded stack -> the harness function that created the error
 	wflag    map[*uintptr]bool   // first cell of a recorded stack -> the error renders no cause section (wrapped)
+	serial   map[*uintptr]int    // first cell of a recorded stack -> serial number of the capture (order of creation)
 	poisoned bool
 }
 
@@ -204,6 +206,96 @@ func (a *errsArea) renderAll(e *errs.Error) string {
 	return ""
 }
 
+var creatorIDs = map[string]int{"main.mkNew": 1, "main.mkNewf": 2, "main.mkCause": 3, "main.mkCausef": 4, "main.mkWrap": 5,
+	"main.mkWrapTyped": 6, "main.mkAppend": 7}
+
+var frameLine = regexp.MustCompile(`^    \[(.+)\] .+:[0-9]+$`)
+
+// canon replaces every block of frame lines of a %v / %+v rendering by the token the model uses for a recorded stack:
+// «creator.serial», creator = the first function of the block outside the library (as a number), serial = the order of
+// capture of the stack that the block belongs to (the k-th block belongs to the k-th error with a stack along the chain of
+// *Error causes).
+func (a *errsArea) canon(text string, e *errs.Error) (string, string) {
+	var serials []int
+	for cur := e; cur != nil; {
+		if st := cur.RawStackTrace(); len(st) != 0 {
+			n, ok := a.serial[unsafe.SliceData(st)]
+			if !ok {
+				n = -1
+			}
+			serials = append(serials, n)
+		}
+		next, ok := errors.Unwrap(cur).(*errs.Error)
+		if !ok {
+			break
+		}
+		cur = next
+	}
+	var out []string
+	lines := strings.Split(text, "\n")
+	blocks := 0
+	const causedBy = "  Caused by: "
+	for i := 0; i < len(lines); {
+		prefix := ""
+		if strings.HasPrefix(lines[i], causedBy) && frameLine.MatchString(lines[i][len(causedBy):]) {
+			// a cause without a message: its frames follow the marker on the same line
+			prefix = causedBy
+			lines[i] = lines[i][len(causedBy):]
+		}
+		if !frameLine.MatchString(lines[i]) {
+			out = append(out, lines[i])
+			i++
+			continue
+		}
+		creator := "?"
+		for ; i < len(lines) && frameLine.MatchString(lines[i]); i++ {
+			fn := frameLine.FindStringSubmatch(lines[i])[1]
+			if creator == "?" && !strings.HasPrefix(fn, "github.com/richardwilkes/toolbox/errs.") {
+				creator = fn
+				if id, ok := creatorIDs[fn]; ok {
+					creator = strconv.Itoa(id)
+				}
+			}
+		}
+		if blocks >= len(serials) {
+			return "", "FAIL-render more stack blocks than errors with a stack along the cause chain"
+		}
+		out = append(out, prefix+"«"+creator+"."+strconv.Itoa(serials[blocks])+"»")
+		blocks++
+	}
+	if blocks != len(serials) {
+		return "", "FAIL-render " + strconv.Itoa(len(serials)) + " errors with a stack along the cause chain but " + strconv.Itoa(blocks) + " stack blocks"
+	}
+	return strings.Join(out, "\n"), ""
+}
+
+// rendering is what the model computes for a rendered error: %s, %q (for quotable messages) and the canonical %v = %+v.
+func (a *errsArea) rendering(e *errs.Error) (string, string) {
+	s := fmt.Sprintf("%s", e)
+	q := "?"
+	quotable := true
+	for i := 0; i < len(s); i++ {
+		if c := s[i]; !(c >= 32 && c <= 126) && c != '\n' && c != '\t' && c != '\r' {
+			quotable = false
+		}
+	}
+	if quotable {
+		q = hx.Hex([]byte(fmt.Sprintf("%q", e)))
+	}
+	v, fail := a.canon(fmt.Sprintf("%v", e), e)
+	if fail != "" {
+		return "", fail
+	}
+	pv, fail := a.canon(fmt.Sprintf("%+v", e), e)
+	if fail != "" {
+		return "", fail
+	}
+	if v != pv {
+		return "", "FAIL-render %v and %+v differ outside the frame blocks"
+	}
+	return " R:" + hx.Hex([]byte(s)) + ":" + q + ":" + hx.Hex([]byte(v)), ""
+}
+
 // register remembers which harness function created the stacks that appear for the first time in the value.
 func (a *errsArea) register(v error, creator string) {
 	e, ok := v.(*errs.Error)
@@ -215,6 +307,7 @@ func (a *errsArea) register(v error, creator string) {
 			if st := we.RawStackTrace(); len(st) != 0 {
 				if _, seen := a.stacks[unsafe.SliceData(st)]; !seen {
 					a.stacks[unsafe.SliceData(st)] = creator
+					a.serial[unsafe.SliceData(st)] = len(a.serial)
 				}
 			}
 		}
@@ -297,6 +390,7 @@ func (a *errsArea) exec(line string) string {
 		a.vars = map[int]error{}
 		a.stacks = map[*uintptr]string{}
 		a.wflag = map[*uintptr]bool{}
+		a.serial = map[*uintptr]int{}
 		return "reset"
 	}
 	if len(f) < 3 || f[1] != "=" || !strings.HasPrefix(f[0], "v") {
@@ -310,6 +404,9 @@ func (a *errsArea) exec(line string) string {
 	}
 	if a.wflag == nil {
 		a.wflag = map[*uintptr]bool{}
+	}
+	if a.serial == nil {
+		a.serial = map[*uintptr]int{}
 	}
 	creator := ""
 	k := varIx(f[0])
@@ -362,6 +459,12 @@ func (a *errsArea) exec(line string) string {
 			if fail := a.renderAll(e); fail != "" {
 				return fail
 			}
+			a.vars[k] = res
+			r, fail := a.rendering(e)
+			if fail != "" {
+				return fail
+			}
+			return a.dump() + r
 		}
 	case f[2] == "elem" && len(args) == 2:
 		// element i of WrappedErrors(): a detached copy, which later calls use as accumulator or argument
